@@ -66,12 +66,21 @@ package hybridbuffer
 //@   modifies mval[ref(op.metrics.persistentChunks)], mval[ref(op.metrics.persistentChunkBytes)]
 
 // only names accepted by the output's chunk-ID matcher are recovered, never the .id file; recovered chunks are unloaded
+// recat: ghost - recat[j] = where the chunk made from the j-th (sorted) name is in the list
+//@ ghost var recat [1099511627776]int
+//@ ghost scratch var lastlisting []string
 //@ func (op *chunkOperator) ScanExistingChunks() []base.LogChunk
 //@   property C03 C04 C19 C05
 //@   requires validop(op)
-//@   modifies mval[ref(op.metrics.ioErrorsTotal)], mem(string), op.maybeDir.*
+//@   modifies mval[ref(op.metrics.ioErrorsTotal)], mem(string), op.maybeDir.*, recat
 //@   ensures[only-matching-names] forall i int :: 0 <= i && i < len(result) ==> result[i].Saved && result[i].Data == nil && idmatch(ref(op.matchChunkID), key(result[i].ID)) && result[i].ID != ".id"
 //@   ensures[recovered-in-creation-order] forall i int, j int :: 0 <= i && i < j && j < len(result) ==> srank(result[i].ID) <= srank(result[j].ID)
+//@   ghostset lastlisting := fnames
+//@   ensures[every-chunk-file-in-the-directory-is-recovered] op.maybeDir != nil && mval[ref(op.metrics.ioErrorsTotal)] == old(mval[ref(op.metrics.ioErrorsTotal)]) ==>
+//@        forall k int :: direntry(ref(op.maybeDir), k) && lastlisting[sortedto(ref(lastlisting), diridx(ref(lastlisting), k))] != ".id" && idmatch(ref(op.matchChunkID), k) ==>
+//@           0 <= recat[sortedto(ref(lastlisting), diridx(ref(lastlisting), k))] && recat[sortedto(ref(lastlisting), diridx(ref(lastlisting), k))] < len(result) && key(result[recat[sortedto(ref(lastlisting), diridx(ref(lastlisting), k))]].ID) == k
+//@   loop 1: ghostset recat[rangeindex] := len(chunkList) - 1
+//@   loop 1: invariant forall j int :: 0 <= j && j <= rangeindex && j < len(fnames) && fnames[j] != ".id" && idmatch(ref(op.matchChunkID), key(fnames[j])) ==> 0 <= recat[j] && recat[j] < len(chunkList) && key(chunkList[recat[j]].ID) == key(fnames[j])
 //@   loop 1: invariant -1 <= rangeindex && isfresh(chunkList) || len(chunkList) == 0
 //@   loop 1: invariant -1 <= rangeindex && rangeindex < len(fnames) && (forall i int, j int :: 0 <= i && i < j && j < len(fnames) ==> srank(fnames[i]) <= srank(fnames[j]))
 //@   loop 1: invariant (forall i int, j int :: 0 <= i && i < j && j < len(chunkList) ==> srank(chunkList[i].ID) <= srank(chunkList[j].ID))
@@ -236,9 +245,17 @@ package hybridbuffer
 //@   ensures[spilled-when-the-memory-window-is-half-full] lastnumout >= defs.BufferMaxNumChunksInMemory / 2 && nsent(buf.inputChannel) == old(nsent(buf.inputChannel)) + 1 ==> cur(chunk).Data == nil && cur(chunk).Saved
 //@   ensures[kept-in-memory-otherwise] lastnumout < defs.BufferMaxNumChunksInMemory / 2 ==> cur(chunk).Data === chunk.Data
 
+// Chunks found on disk are older than anything accepted later: they are queued by Start itself, before it returns and before the
+// feeder runs (C05) - not by a goroutine that new input could overtake.
+//@ func (buf *bufferer) Start()
+//@   property C05 C03
+//@   requires validbuf(buf)
+//@   modifies everything
+//@   ensures[chunks-found-on-disk-are-queued-before-start-returns] ncalls("hybridbuffer.bufferer.recoverExistingChunks") == old(ncalls("hybridbuffer.bufferer.recoverExistingChunks")) + 1
+
 // recovery enqueues without blocking, in scan order, and counts every recovered chunk as (persistent) input
 //@ func (buf *bufferer) recoverExistingChunks()
-//@   flag nonblocking
+//@   flag nonblocking counted
 //@   requires validbuf(buf)
 //@   modifies everything
 //@   preserves bufferer.*, outputFeeder.*, chunkManager.*, chunkOperator.*, chunkManagerMetrics.*, chunkOperatorMetrics.*, bufferMetrics.*
@@ -258,6 +275,29 @@ package hybridbuffer
 //@   ensures[same-length-only-slash-and-nul-replaced] len(result) == len(name) && forall i int :: 0 <= i && i < len(name) ==> result[i] == ((name[i] == 0 || name[i] == 47) ? 95 : name[i])
 //@   loop 1: invariant 0 <= i && i <= len(name) && len(cur(result)) == len(name) && isfresh(cur(result)) && forall k int :: 0 <= k && k < i ==> cur(result)[k] == ((name[k] == 0 || name[k] == 47) ? 95 : name[k])
 //@   loop 1: decreases len(name) - i
+
+// ---- start-up / reload: which queues are re-attached (C06 C17). Every entry of the root directory is examined (its type is
+// asked for by name), and an entry is listed exactly when the chunk count taken for it is positive - a queue with a single
+// chunk included. lastcount: ghost - the last chunk count taken.
+//@ ghost var lastcount int
+//@ func (op *chunkOperator) CountExistingChunks() int
+//@   flag trusted counted
+//@   modifies lastcount, mval
+//@   ensures result >= 0 && lastcount == result
+// set-up / tear-down of the per-entry operator: trusted, they touch neither the list nor the count
+//@ func newChunkOperator(parentLogger logger.Logger, path string, matchChunkID func(string) bool, metricCreator promreg.MetricCreator, maxTotalBytes int64) chunkOperator
+//@   flag trusted
+//@   modifies mval
+//@ func (op *chunkOperator) Close()
+//@   flag trusted
+//@   modifies mval
+//@ func listBufferQueueIDs(parentLogger logger.Logger, rootPath string, matchChunkID func(string) bool, parentMetricCreator promreg.MetricCreator) []string
+//@   property C06 C17
+//@   flag nosafety noinfer
+//@   modifies everything
+//@   loop 1: step[every-entry-is-examined] ncalls("util.StatFileAt") == prev(ncalls("util.StatFileAt")) + 1
+//@   loop 1: step[a-queue-holding-chunks-is-listed] ncalls("hybridbuffer.chunkOperator.CountExistingChunks") > prev(ncalls("hybridbuffer.chunkOperator.CountExistingChunks")) && lastcount > 0 ==> len(validBufferIDList) == prev(len(validBufferIDList)) + 1
+//@   loop 1: step[only-queues-holding-chunks-are-listed] len(validBufferIDList) != prev(len(validBufferIDList)) ==> len(validBufferIDList) == prev(len(validBufferIDList)) + 1 && ncalls("hybridbuffer.chunkOperator.CountExistingChunks") > prev(ncalls("hybridbuffer.chunkOperator.CountExistingChunks")) && lastcount > 0
 
 //@ func makeBufferQueueDir(parentLogger logger.Logger, rootPath string, bufferID string) string
 //@   property C06
